@@ -287,6 +287,92 @@ def r07h(ctx, rep, rule="R07h"):
         rep.ok(rule, key, "every path from the error arm to the return passes run_gc", [fn.span])
 
 
+PREPARE = "marwood::vm::Vm::prepare_eval"
+
+
+def r07i(ctx, rep, rule="R07i"):
+    """who may collect, and where"""
+    from ..shapes import dominating_guards
+    facts, cg = ctx["facts"], ctx["cg"]
+    rep.rule(rule, "collections happen only where everything live is rooted: run_gc is called by run_count (between instructions: "
+             "all live data hang off the registers and the stack) and by prepare_eval on the Err edge of compile_runnable only "
+             "(nothing of a failed compilation is needed any more; without that collection point a run of compile errors only "
+             "grows the heap). A collection after a *successful* compilation and before the entry procedure is installed in "
+             "%ip sweeps the program just compiled, which is referenced from a Rust local only.")
+    if need(rep, rule, facts, RUN_GC) is None:
+        return
+    cs = cg.callers(RUN_GC)
+    extra = cs - {RUN_COUNT, PREPARE}
+    key = rule + "|callers(run_gc)"
+    if extra:
+        rep.fail(rule, key, "run_gc is also called by %s: outside the interpreter loop not everything live is reachable from the "
+                 "machine's roots" % ", ".join(short_path(c) for c in sorted(extra)))
+    else:
+        rep.ok(rule, key, "run_gc is called only by %s" % ", ".join(short_path(c) for c in sorted(cs)))
+    f = facts.fns.get(PREPARE)
+    if f is None:
+        return
+    gcs = [(bb, t) for bb, t in f.calls() if callee(t) == RUN_GC]
+    comp = [bb for bb, t in f.calls() if (callee(t) or "").endswith("compile_runnable")]
+    key = rule + "|prepare_eval|collects-on-compile-error"
+    if not gcs:
+        rep.fail(rule, key, "prepare_eval reports a compile error without a collection point: what the failed compilation put on "
+                 "the heap is never reclaimed, and repeated compile errors accumulate memory", [f.span])
+        return
+    bad = []
+    for bb, t in gcs:
+        on_err = False
+        for sbb, cond, taken, tt in dominating_guards(f, bb):
+            o = f.origin(cond)
+            if o[0] == "rv" and o[1]["rv"]["k"] == "disc" and "Result" in o[1]["rv"]["place"]["ty"] and taken == 1:
+                src = f.origin({"copy": o[1]["rv"]["place"]})
+                if src[0] == "call" and (callee(src[1]) or "").endswith("compile_runnable"):
+                    on_err = True
+        if not on_err:
+            bad.append(t)
+    if bad:
+        rep.fail(rule, key, "prepare_eval calls run_gc on a path where compilation succeeded: the freshly compiled entry procedure "
+                 "and its constants are referenced from a Rust local only, so the collection frees the program it is about to run",
+                 [bad[0]["loc"]])
+    else:
+        rep.ok(rule, key, "prepare_eval collects only on the Err edge of compile_runnable", [gcs[0][1]["loc"]])
+
+
+def r12l(ctx, rep, rule="R12l"):
+    """a new evaluation starts on an empty stack"""
+    facts, cg = ctx["facts"], ctx["cg"]
+    rep.rule(rule, "an abandoned evaluation is cleared away (must-pass-through): every path in prepare_eval from the successful "
+             "compilation to the installation of the entry procedure in %ip passes a reset of the stack pointer (a write of "
+             "Stack.sp, directly or through a callee). An embedder that stops resuming a sliced evaluation and prepares another "
+             "would otherwise run it on top of the abandoned frames, which stay roots for the rest of the VM's life.")
+    f = need(rep, rule, facts, PREPARE)
+    if f is None:
+        return
+    resetting = set()
+    for bb, t in f.calls():
+        c = callee(t)
+        if c in facts.fns and "Stack.sp" in field_writes(facts, cg, c):
+            resetting.add(bb)
+        if c == STACK + "get_sp_mut":
+            dest = t["dest"]["l"]
+            for b2, j, s_ in f.stmts():
+                if s_["lhs"]["l"] == dest and s_["lhs"]["p"] and s_["lhs"]["p"][0] == "*":
+                    resetting.add(b2)
+    ipw = [bb for bb, j, s_ in f.stmts() if s_["lhs"]["l"] == 1 and [e.get("n") for e in s_["lhs"]["p"] if isinstance(e, dict)][:1] == ["ip"]]
+    comp = [t for bb, t in f.calls() if (callee(t) or "").endswith("compile_runnable")]
+    if not ipw or not comp or comp[0].get("target") is None:
+        rep.anchor_lost(rule, "compile_runnable call / write of ip in prepare_eval")
+        return
+    reach = f.reach_from(comp[0]["target"], avoid=resetting)
+    key = rule + "|prepare_eval|resets-sp"
+    if any(b in reach for b in ipw):
+        rep.fail(rule, key, "prepare_eval installs the new entry procedure without resetting the stack pointer: the frames of an "
+                 "evaluation that was abandoned between two slices stay below the new one and are roots for good — memory grows "
+                 "with every abandoned evaluation", [f.span])
+    else:
+        rep.ok(rule, key, "prepare_eval resets the stack pointer before it installs the entry procedure", [f.span])
+
+
 def r07b(ctx, rep, rule="R07b"):
     facts = ctx["facts"]
     rep.rule(rule, "compile failures do not move the machine: in Vm::prepare_eval every write of the instruction "
@@ -304,11 +390,14 @@ def r07b(ctx, rep, rule="R07b"):
         t = b["term"]
         if t["k"] == "switch" and not b.get("cleanup"):
             o = fn.origin(t["op"])
-            if o[0] == "rv" and o[1]["rv"]["k"] == "disc" and "ControlFlow" in o[1]["rv"]["place"]["ty"] and \
-                    "lambda::Lambda" in o[1]["rv"]["place"]["ty"]:
-                for v, tg in t["targets"]:
-                    if v == 0:
-                        cont = tg
+            # `compile_runnable(..)?` (ControlFlow::Continue) or an explicit match on its Result (Ok): variant 0 either way
+            if o[0] == "rv" and o[1]["rv"]["k"] == "disc" and "lambda::Lambda" in o[1]["rv"]["place"]["ty"] and \
+                    ("ControlFlow" in o[1]["rv"]["place"]["ty"] or "result::Result" in o[1]["rv"]["place"]["ty"]):
+                vals = dict((v, tg) for v, tg in t["targets"])
+                if 0 in vals:
+                    cont = vals[0]
+                elif 1 in vals:
+                    cont = t["otherwise"]
     writes = []
     for bb, j, s in fn.stmts():
         l = s["lhs"]
@@ -316,7 +405,7 @@ def r07b(ctx, rep, rule="R07b"):
             writes.append((bb, s))
     rep.floor(rule, "instruction pointer writes in prepare_eval", len(writes), 2)
     if cont is None:
-        rep.anchor_lost(rule, "`?` on compile_runnable's result in prepare_eval")
+        rep.anchor_lost(rule, "branch on compile_runnable's result in prepare_eval")
         return
     for i, (bb, s) in enumerate(writes):
         ok = fn.dominates(cont, bb)
